@@ -209,6 +209,38 @@ def own_workload_release(ctx, wd, violations, per_prop, samples):
     return len(ops), hook[0] if hook else 0
 
 
+VIEW_MODULE = "EasyMl.Props.C10Views"
+VIEW_THEOREMS = ["EasyMl.C10.view_unchecked_inBounds", "EasyMl.C10.view_unchecked_inBounds_matrix"]
+ALLOWED_AXIOMS = {"propext", "Classical.choice", "Quot.sound"}
+
+
+def audit_view_module(ctx):
+    """The general view theorems live in a module of their own (see Props/C10Views.lean for why):
+    build it and audit the axioms of its theorems, as verif.py does for the registered module."""
+    import re
+    results = []
+    rc, logtxt = ctx["lake_build"]([VIEW_MODULE])
+    if rc != 0:
+        return [{"name": t, "ok": False, "axioms": [], "why": "lake build " + VIEW_MODULE + " failed"}
+                for t in VIEW_THEOREMS], logtxt[-1500:]
+    src = os.path.join(ctx["work"], "Audit_C10Views.lean")
+    with open(src, "w") as f:
+        f.write(f"import {VIEW_MODULE}\n" + "".join(f"#print axioms {t}\n" for t in VIEW_THEOREMS))
+    rc, out, err = ctx["sh"](["lake", "env", "lean", src], cwd=ctx["lean"], check=False, timeout=3600)
+    flat = re.sub(r"\s+", " ", out + err)
+    for t in VIEW_THEOREMS:
+        m = re.search(r"'" + re.escape(t) + r"' depends on axioms: \[([^\]]*)\]", flat)
+        if m:
+            axioms = [a.strip() for a in m.group(1).split(",") if a.strip()]
+            bad = [a for a in axioms if a not in ALLOWED_AXIOMS]
+            results.append({"name": t, "ok": not bad, "axioms": axioms, "why": "uses axioms " + ",".join(bad) if bad else ""})
+        elif re.search(r"'" + re.escape(t) + r"' does not depend on any axioms", flat):
+            results.append({"name": t, "ok": True, "axioms": [], "why": ""})
+        else:
+            results.append({"name": t, "ok": False, "axioms": [], "why": "theorem not found by #print axioms"})
+    return results, ""
+
+
 def run(ctx):
     violations, samples, per_prop = [], [], {}
     DISTINCT[0] = 0
@@ -226,7 +258,15 @@ def run(ctx):
     n_checked += own_checked
     # concrete failing inputs first
     violations.sort(key=lambda v: 1 if v.get("no_failing_input") else 0)
-    cov = {"evaluations": n_ops, "distinct_nontrivial": DISTINCT[0], "traces_validated_against_impl": programs,
+    view_audit, view_log = audit_view_module(ctx)
+    broken = [r for r in view_audit if not r["ok"]]
+    if broken:
+        violations.append({"case": "theorem audit of " + VIEW_MODULE, "kind": "theorem", "no_failing_input": True,
+                           "broken": [{"theorem": r["name"], "why": r["why"]} for r in broken],
+                           "build_log": view_log,
+                           "explanation": "These proof obligations are no longer discharged by Lean."})
+    cov = {"evaluations": n_ops, "distinct_nontrivial": DISTINCT[0],
+           "second_module_theorems": view_audit, "traces_validated_against_impl": programs,
            "programs": programs, "unchecked_accesses_monitored": n_checked, "monitored_workloads": per_prop}
     return {"violations": violations[:8], "coverage": cov, "samples": samples}
 
